@@ -50,10 +50,13 @@ REQUIRED_LABELS = {
               "k:dense", "k:conv1d", "k:conv2d", "k:dw2d", "kq:qb", "kq:po2",
               "kq:bin", "kq:ter", "kq:qb_auto_po2", "kq_max_value_not_po2",
               "dw_depth_multiplier>1", "act:relu_1bit_int0", "act:relu_1bit_int1",
-              "act:relu_1bit_int2", "x:aligned", "lead_act",
+              "act:relu_1bit_int2", "kernel_unsigned",
+              "bin_ter_into_unsigned_kernel", "inference_auto_po2", "x:aligned",
+              "lead_act",
               "aa:QDense", "aa:QConv2D", "aa:QConv1D", "aa:QDepthwiseConv2D"],
 }
-REQUIRED_LABELS["thorough"] = REQUIRED_LABELS["quick"] + ["inexact_f32"]
+REQUIRED_LABELS["quick"].append("inexact_f32")
+REQUIRED_LABELS["thorough"] = list(REQUIRED_LABELS["quick"])
 
 _STATE = {"n": 0}
 
@@ -225,7 +228,7 @@ def _layer_sig(l, in_family, which):
 
 def oracle_model(ctx, case, stats):
   import tensorflow as tf  # pylint: disable=g-import-not-at-top
-  from qkeras.qtools import run_qtools  # pylint: disable=g-import-not-at-top
+  from qkeras.qtools import run_qtools as run_qtools_mod  # pylint: disable=g-import-not-at-top
   fails = []
   _housekeeping()
   layers = case["layers"]
@@ -233,6 +236,39 @@ def oracle_model(ctx, case, stats):
   G.set_stack_weights(model, case, shapes)
   compute_idx = [i for i, l in enumerate(layers) if l["k"] in G.COMPUTE]
   first = compute_idx[0]
+
+  src_q = G.build_q(case["src"])
+  inference = bool(case.get("inference"))
+
+  def run_qtools():
+    try:
+      with _quiet():
+        if inference:
+          qt = run_qtools_mod.QTools(model, process="horowitz",
+                                     source_quantizers=[src_q], is_inference=True,
+                                     model_weights_already_quantized=False)
+        else:
+          qt = run_qtools_mod.QTools(model, process="horowitz",
+                                     source_quantizers=[src_q], is_inference=False)
+      return qt._output_dict, None  # pylint: disable=protected-access
+    except Exception as e:  # pylint: disable=broad-except
+      sig = dict(core.exc_signature(e), clause="qtools_raises", inference=inference,
+                 kqs=sorted(set(G.q_family(layers[i]["kq"]) for i in compute_idx)))
+      return None, [("qtools_raises", sig, repr(e)[:300])]
+
+  rep = None
+  if inference:
+    # float-weights route of qtools: the kernel quantizers have been called
+    # eagerly on OTHER weights before (their auto_po2 scales are stale), then
+    # the weights change and QTools(is_inference=True,
+    # model_weights_already_quantized=False) has to re-quantize them itself
+    for i in compute_idx:
+      lay = model.get_layer("L%d" % i)
+      _eval_q(lay.get_quantizers()[0], lay.get_weights()[0])
+    G.set_stack_weights(model, case, shapes, reseed=7919)
+    rep, bad = run_qtools()
+    if bad:
+      return bad
 
   # quantized weights really used by the layers
   used = {}
@@ -245,7 +281,6 @@ def oracle_model(ctx, case, stats):
     used[i] = (wq, bq, qs[0])
 
   x = make_inputs(case, first, used[first][0])
-  src_q = G.build_q(case["src"])
   if not np.array_equal(_eval_q(src_q, x), x):
     raise core.HarnessError("generated inputs are not fixed points of the "
                             "source quantizer %r" % (case["src"],))
@@ -261,15 +296,10 @@ def oracle_model(ctx, case, stats):
     if not np.array_equal(wq, used[i][0]):
       raise core.HarnessError("kernel quantizer is not deterministic")
 
-  try:
-    with _quiet():
-      qt = run_qtools.QTools(model, process="horowitz",
-                             source_quantizers=[src_q], is_inference=False)
-    rep = qt._output_dict  # pylint: disable=protected-access
-  except Exception as e:  # pylint: disable=broad-except
-    sig = dict(core.exc_signature(e), clause="qtools_raises",
-               kqs=sorted(set(G.q_family(layers[i]["kq"]) for i in compute_idx)))
-    return [("qtools_raises", sig, repr(e)[:300])]
+  if rep is None:
+    rep, bad = run_qtools()
+    if bad:
+      return bad
 
   # source type holds the inputs
   for clause, _, text in T.violations(rep["source_quantizers"][0], x):
@@ -366,12 +396,23 @@ def labels_model(case):
   labs = ["model", "x:" + case["xmode"]]
   if case.get("lead_act"):
     labs.append("lead_act")
+  if case.get("inference"):
+    labs.append("inference")
+  prev = None
   for l in case["layers"]:
+    if l["k"] == "act":
+      prev = l["q"]
     if l["k"] in G.COMPUTE:
       labs += ["k:" + l["k"], "kq:" + G.q_family(l["kq"]), "w:" + l["wmode"],
                "bias" if l["bias"] else "nobias"]
       if l.get("dm", 1) > 1:
         labs.append("dw_depth_multiplier>1")
+      if G.q_family(l["kq"]) in ("qb_unsigned", "relu", "rpo2"):
+        labs.append("kernel_unsigned")
+        if prev is not None and prev["t"] in ("bin", "ter"):
+          labs.append("bin_ter_into_unsigned_kernel")
+      if case.get("inference") and G.is_auto(l["kq"]):
+        labs.append("inference_auto_po2")
       mv = l["kq"].get("mv")
       if mv is not None and np.log2(mv) != np.round(np.log2(mv)):
         labs.append("kq_max_value_not_po2")
@@ -589,6 +630,8 @@ def case_strategy(quick):
     case["xmode"] = draw(st.sampled_from(["random", "max", "min", "aligned", "lsb"]))
     case["xseed"] = draw(st.integers(0, 2 ** 16))
     case["batch"] = 2
+    if draw(st.integers(0, 3)) == 0:
+      case["inference"] = True
     return case
 
   @st.composite
@@ -655,7 +698,11 @@ def edge_cases(tier):
              {"t": "po2", "bits": 3, "mv": None}, {"t": "po2", "bits": 4, "mv": None},
              {"t": "po2", "bits": 4, "mv": 4.0}, {"t": "po2", "bits": 4, "mv": 1.0},
              {"t": "po2", "bits": 4, "mv": 6.0},
-             {"t": "bin"}, {"t": "ter"}]
+             {"t": "bin"}, {"t": "ter"},
+             # unsigned kernels (only after source / relu / binary / ternary inputs)
+             {"t": "qb", "bits": 3, "int": 1, "sym": 0, "kn": 0, "alpha": 1.0},
+             {"t": "relu", "bits": 3, "int": 1}, {"t": "rpo2", "bits": 2, "mv": None}]
+  n_signed = len(kernels) - 3
   biases = [None, qb(4, 1, 0, 1.0), {"t": "po2", "bits": 3, "mv": None}]
   modes = [("max", "max"), ("min", "max"), ("min", "min"), ("max", "min"),
            ("signed_max", "aligned"), ("lsb", "lsb"), ("random", "random")]
@@ -675,6 +722,8 @@ def edge_cases(tier):
   idx = 0
   for ii, lead in enumerate(inputs):
     for ik, kq in enumerate(kernels):
+      if ik >= n_signed and ii not in (0, 1, 3, 4):
+        continue
       for ib, bq in enumerate(biases):
         for im, (wm, xm) in enumerate(modes):
           idx += 1
@@ -706,7 +755,15 @@ def edge_cases(tier):
               layers = [{"k": "act", "q": lead}]
             case["layers"] = layers + [l]
             case.update(xmode=xm, xseed=idx, batch=2)
+            if G.is_auto(k2) and idx % 2 == 0:
+              case["inference"] = True      # float-weights route, stale scales
             out.append(case)
+  # accumulators beyond 24 bits: float32 is inexact, only the range is tested
+  out.append({"type": "model", "in_shape": [33], "src": qb(12, 1),
+              "layers": [{"k": "dense", "units": 2, "bias": True,
+                          "kq": qb(12, 0, 0, 1.0), "bq": qb(8, 2, 0, 1.0),
+                          "wmode": "random", "wseed": 7}],
+              "xmode": "aligned", "xseed": 7, "batch": 2})
   # estimator lattice
   for g, (kind, in_shape, geo) in enumerate(geos[:n_est]):
     for bias in (False, True):
@@ -731,12 +788,58 @@ def edge_cases(tier):
   return out
 
 
+DYNAMIC_LABELS = ("edge", "tight", "very_tight", "exact_f32", "inexact_f32")
+
+
+def prioritized(cases, tier):
+  """Splits the lattice into a short head that produces every REQUIRED label
+  (greedy cover over the labels that follow from the case description, plus
+  fixed extremal cases for the measured ones) and the rest.  The head is run
+  first and regardless of the time budget, so the vacuity guard never depends
+  on how far a slow machine gets."""
+  need = set(REQUIRED_LABELS[tier]) - set(DYNAMIC_LABELS)
+  static = []
+  for c in cases:
+    labs = labels_aa(c) if c.get("type") == "aa" else labels_model(c)
+    static.append(set(labs) & need)
+  head = []
+  covered = set()
+  while covered != need:
+    best = max(range(len(cases)), key=lambda i: len(static[i] - covered))
+    if not static[best] - covered:
+      raise core.HarnessError("lattice cannot produce labels %r" %
+                              sorted(need - covered))
+    head.append(best)
+    covered |= static[best]
+  # measured labels: extremal single dense layers (tight / very_tight /
+  # exact_f32) and the wide case (inexact_f32)
+  for want in (("max", "max"), ("min", "min"), ("min", "max")):
+    for i, c in enumerate(cases):
+      l = c["layers"][-1]
+      if (c.get("type") == "model" and "lead_act" not in c and l["k"] == "dense"
+          and not l["bias"] and G.q_family(l["kq"]) == "qb"
+          and (l["wmode"], c["xmode"]) == want and i not in head):
+        head.append(i)
+        break
+  wide = [i for i, c in enumerate(cases) if c["in_shape"] == [33]]
+  head += [i for i in wide if i not in head]
+  hs = set(head)
+  return [cases[i] for i in head], [c for i, c in enumerate(cases) if i not in hs]
+
+
 def run(ctx):
   from hypothesis import strategies as st  # pylint: disable=g-import-not-at-top
   quick = ctx.quick
   cases = edge_cases(ctx.tier)
-  ctx.info["lattice_size"] = len(cases) if ctx.idx == 0 else 0
-  for case in ctx.shard(cases):
+  head, rest = prioritized(cases, ctx.tier)
+  if ctx.idx == 0:
+    ctx.info["lattice_size"] = len(cases)
+    ctx.info["priority_head"] = len(head)
+  for case in ctx.shard(head):           # never cut by the budget
+    ctx.labels["edge"] += 1
+    for sc, sig, detail in oracle(ctx, case):
+      ctx.fail(sc, sig, case, detail)
+  for case in ctx.shard(rest):
     if ctx.time_left() <= 0:
       ctx.labels["inconclusive_time"] += 1
       break
